@@ -55,10 +55,15 @@ class Probe:
 
 def req_kwargs(q):
     kw = {}
+    # a flag phrased as the caller may: Python bool, numpy.bool_, int (chosen from the request itself: replays repeat it)
+    form = (q["fz"] + 2 * q["daz"] + 3 * q["rn"]) % 3
+
+    def flag(v):
+        return bool(v) if form == 0 else numpy.bool_(bool(v)) if form == 1 else int(bool(v))
     if q["fz"] != -1:
-        kw["FZ"] = bool(q["fz"])
+        kw["FZ"] = flag(q["fz"])
     if q["daz"] != -1:
-        kw["DAZ"] = bool(q["daz"])
+        kw["DAZ"] = flag(q["daz"])
     if q["rn"] != -1:
         kw["RN"] = ["nearest", "down", "up", "towardszero"][q["rn"]]
     return kw
